@@ -3,13 +3,19 @@
 # caught by (one of) the check(s) recorded in its meta.json
 runs=${1:-600}
 cd /verif
-for d in seeded/*; do
+# IDS="C01-A C02-B ..." restricts the regression to these (several lanes can run side by side)
+list=$(ls -d seeded/*)
+[ -n "$IDS" ] && list=$(for i in $IDS; do echo seeded/$i; done)
+for d in $list; do
   id=$(basename $d)
   by=$(python3 -c "import json;print(' '.join(json.load(open('$d/meta.json')).get('detected_by') or []))")
   [ -z "$by" ] && { echo "SKIP     $id (recorded as missed)"; continue; }
   ok=0
   for p in $by; do
-    out=$(tools/mutant.sh /verif/$d/patch.diff $p $runs)
+    r=$runs
+    # sizes at which the rarer ones fall inside the quick tier's budget
+    case $p in C03|C10|C13|C14|C19) r=$((runs*5));; C06|C02|C04|C16|C01|C20) r=$((runs*3));; esac
+    out=$(tools/mutant.sh /verif/$d/patch.diff $p $r </dev/null)
     echo "$out" | cut -c1-200
     echo "$out" | grep -q '^DETECTED' && { ok=1; break; }
   done
